@@ -40,7 +40,7 @@ def determinism(args, seed, jobs):
     return 1 if bad else 0
 
 
-MUT = "/tmp/verif-mut"
+MUT = os.environ.get("VERIF_MUT_DIR", "/tmp/verif-mut")
 
 
 def sh(cmd, cwd=None, env=None):
